@@ -1,11 +1,12 @@
 import Resolvo.MDet.Solve
 import Resolvo.Oracles
+import Resolvo.Abs.Decide
 /-!
 # The checked model
 
 `solveChecked` runs the deterministic model `MDet.solve` and then subjects its own history and
-answer to the verified checkers: the abstract system (`Abs.runOpt`, for the history and for an
-Unsolvable verdict) and the validity / support oracles (for a solution). If a checker objects the
+answer to the verified checkers: the decision-guarded abstract system (`Abs.runOptD`, for the history, for an
+Unsolvable verdict and for the decisions that led to a solution) and the validity / support oracles (for a solution). If a checker objects the
 outcome is `checkFailed` — an explicit outcome, so the theorems about `solveChecked` hold for
 **every** universe, problem, cancellation plan and fuel, with no unproved assumption about the
 search. What is *not* proved is that `checkFailed` never occurs (refinement obligations R1–R6 of
@@ -29,16 +30,17 @@ def checkOutcome (U : Universe) (P : Problem) (o : Outcome) (history : List Ev) 
   match o with
   | .stop w => .stop w
   | .unsat c =>
-    (match runOpt U P (absEvents history) with
+    (match runOptD U P (absEvents history) with
      | some st => if st.failed.isSome then .unsat c else .checkFailed "Unsolvable without a recorded root-level failure"
-     | none => .checkFailed "history rejected by the abstract system")
+     | none => .checkFailed "history rejected by the abstract system (with the decision guard)")
   | .ok sol =>
-    (match runOpt U P (absEvents history) with
-     | some _ =>
-       if validB U P sol (exemptOf P sol) then
+    (match runOptD U P (absEvents history) with
+     | some st =>
+       if sol != st.trueSolvables then .checkFailed "solution differs from the solvables that are true at the end of the history"
+       else if validB U P sol (exemptOf P sol) then
          if supportedB U P sol then .ok sol else .checkFailed "solution contains an unsupported solvable"
        else .checkFailed "solution is not valid"
-     | none => .checkFailed "history rejected by the abstract system")
+     | none => .checkFailed "history rejected by the abstract system (with the decision guard)")
 
 /-- One solve of the checked model on a solver state `s` (cache contents, cancellation plan,
     activity parameters); returns the checked outcome and the new solver state. -/
